@@ -33,7 +33,7 @@ type c19Outcome struct {
 	GotData  bool   `json:"got_data,omitempty"`
 }
 
-var c19Kinds = []string{"read", "write", "denied", "lease", "lookup-self", "create-child", "create-orphan"}
+var c19Kinds = []string{"read", "write", "denied", "lease", "lookup-self", "create-child", "create-orphan", "existfail"}
 
 func c19Boot(t *testing.T, tx bool) *vCore {
 	v := vBoot(t, vOpts{Transactional: tx})
@@ -52,6 +52,10 @@ func c19Req(v *vCore, kind, name, tag, token string) (*logical.Response, error) 
 		return v.Do(vReq{Tag: tag, Op: logical.UpdateOperation, Path: "rec/data/w-" + name, Token: token, Data: map[string]any{"v": name}})
 	case "denied":
 		return v.Do(vReq{Tag: tag, Op: logical.ReadOperation, Path: "rec/data/denied/x", Token: token})
+	case "existfail":
+		// a write whose create-or-update existence check fails in the backend: refused with an
+		// error, but it presented the token and counts as a use
+		return v.Do(vReq{Tag: tag, Op: logical.UpdateOperation, Path: "rec/data/existfail/" + name, Token: token, Data: map[string]any{"v": name}})
 	case "lease":
 		return v.Do(vReq{Tag: tag, Op: logical.ReadOperation, Path: "rec/lease/l-" + name, Token: token})
 	case "lookup-self":
@@ -166,6 +170,7 @@ func c19Case(t *testing.T, v *vCore, r *kit.Result, caseID string, n int, kinds 
 	}
 	uses := 0
 	okReads := 0
+	var uncountedExistfail []string
 	var leasesIssued []string
 	for i, k := range kinds {
 		tag := fmt.Sprintf("q%d", i)
@@ -209,10 +214,39 @@ func c19Case(t *testing.T, v *vCore, r *kit.Result, caseID string, n int, kinds 
 			if ok {
 				r.Violate("C19-denied-allowed", caseID, "policy-denied path was served", nil)
 			}
+		case "existfail":
+			r.Count("requests_failing_in_the_backend_existence_check", 1)
+			if ok {
+				r.Violate("C19-harness-existfail-served", caseID, "the failing-existence-check write was served", nil)
+			}
+			if !used {
+				uncountedExistfail = append(uncountedExistfail, tag)
+			}
 		}
 		outs[i] = o
 	}
 	wit := map[string]any{"n": n, "kinds": kinds, "outcomes": outs, "schedule": sched.String()}
+	// A request that fails inside the backend's existence check presented the token like any
+	// other: as long as the token had uses left it must have been counted. (When the other
+	// requests spent all n uses first, an uncounted one is simply a refused one.)
+	// Sequential history: the requests are presented one after the other, so the first n of them
+	// (whatever their outcome: served, denied by policy, failed in the backend) use the token up
+	// and every later one must be refused without reaching a handler.
+	if pol == nil {
+		for i := n; i < len(kinds); i++ {
+			tag := fmt.Sprintf("q%d", i)
+			_, used := useSeq[tag]
+			_, handled := handlerSeq[tag]
+			served := vOK(resps[i], errs[i]) && resps[i] != nil && (resps[i].Data != nil || resps[i].Secret != nil || resps[i].Auth != nil)
+			if used || handled || served {
+				r.Violate("C19-request-served-after-n-presentations", caseID, fmt.Sprintf("token with num_uses=%d: request %d of the sequence (%s) was %s although %d requests had presented the token before it", n, i+1, kinds[i], map[bool]string{true: "accounted as a use", false: "served"}[used], i), wit)
+				break
+			}
+		}
+	}
+	if uses < n && len(uncountedExistfail) > 0 {
+		r.Violate("C19-failed-request-not-counted", caseID, fmt.Sprintf("token with num_uses=%d: only %d uses were accounted although %d request(s) %v whose existence check fails in the backend also presented it", n, uses, len(uncountedExistfail), uncountedExistfail), wit)
+	}
 	if uses > n {
 		r.Violate("C19-too-many-uses", caseID, fmt.Sprintf("token with num_uses=%d had %d requests accounted/authorised", n, uses), wit)
 	}
